@@ -156,6 +156,14 @@ def new_node(cfg):
 # ----------------------------------------------------------------------------------------
 # struct parameters
 # ----------------------------------------------------------------------------------------
+def struct_case(case):
+    """cases recorded before the mixed layouts were generated (corpus): read_<struct> and write_<struct> both or neither"""
+    if 'hasRS' in case:
+        return case
+    ops = [op[:6] + ['fail:secop'] + op[6:] if op[0] == 'writeMember' and len(op) == 7 else op for op in case['ops']]
+    return dict(case, hasRS=case['combined'], hasWS=case['combined'], ops=ops)
+
+
 def build_struct_class(case, cur):
     from frappy.core import FloatRange, Module, Parameter
     from frappy.extparams import StructParam
@@ -176,20 +184,22 @@ def build_struct_class(case, cur):
             return None
         return v
 
-    if case['combined']:
-        def read_ctrl(self):
-            return rd(cur['rA'].pop(0)) if cur.get('rA') else rd(None)
+    def read_ctrl(self):
+        return rd(cur['rA'].pop(0)) if cur.get('rA') else rd(None)
 
-        def write_ctrl(self, value):
-            cur.setdefault('written', []).append(dict(value))
-            return wr(cur['wA'].pop(0)) if cur.get('wA') else wr(None)
+    def write_ctrl(self, value):
+        cur.setdefault('written', []).append(dict(value))
+        return wr(cur['wA'].pop(0)) if cur.get('wA') else wr(None)
+    if case['hasRS']:
         ns['read_ctrl'] = read_ctrl
+    if case['hasWS']:
         ns['write_ctrl'] = write_ctrl
-    else:
-        for m in case['hasR']:
-            ns['read_' + prefix + m] = lambda self, m=m: rd(cur.get('rB', {}).get(m))
-        for m in case['hasW']:
-            ns['write_' + prefix + m] = lambda self, value, m=m: wr(cur.get('wB', {}).get(m))
+    # programmer-written member methods: in the per-member layout the usual thing, in the combined layout they take the
+    # place of the generated ones
+    for m in case['hasR']:
+        ns['read_' + prefix + m] = lambda self, m=m: rd(cur.get('rB', {}).get(m))
+    for m in case['hasW']:
+        ns['write_' + prefix + m] = lambda self, value, m=m: wr(cur.get('wB', {}).get(m))
     return type('StructMod', (Module,), ns)
 
 
@@ -209,6 +219,7 @@ def obs_dict(members, d):
 def impl_struct(case):
     """run the history on the real code -> [obs after init, obs after op 1, ...]"""
     cur = {}
+    case = struct_case(case)
     cls = build_struct_class(case, cur)
     node, conn = new_node({'m': {'cls': cls, 'description': 'x'}})
     mod = node.modules['m']
@@ -256,6 +267,7 @@ def impl_struct(case):
                 cur['wA'] = [op[3] if isinstance(op[3], str) else dict_in(op[3])]
                 cur['rA'] = [op[4] if is_fail(op[4]) else dict_in(op[4])]
                 cur['wB'] = {op[1]: op[5]}
+                cur['rB'] = {op[1]: op[6]}
                 if via == 'req':
                     ok, exc = reply_outcome(node.request(conn, 'change', 'm:_' + prefix + op[1], op[2]))
                 else:
@@ -275,7 +287,8 @@ def impl_struct(case):
 
 
 def wire_struct(case):
-    return {'p': 'C18', 'k': 'struct', 'members': case['members'], 'combined': case['combined'],
+    case = struct_case(case)
+    return {'p': 'C18', 'k': 'struct', 'members': case['members'], 'hasRS': case['hasRS'], 'hasWS': case['hasWS'],
             'hasR': case['hasR'], 'hasW': case['hasW'], 'ops': [op[:-1] for op in case['ops']]}
 
 
@@ -286,10 +299,14 @@ def judge_struct_req(case, trace):
 
 def gen_struct(rng, big):
     members = rng.choice([['p'], ['p', 'i'], ['p', 'i', 'd'], ['a', 'b', 'c', 'dd']])
-    combined = rng.random() < 0.5
+    # which of read_<struct> / write_<struct> the programmer wrote: both, one of them (the other is the plain wrapper), neither
+    hasRS, hasWS = rng.choice([(True, True)] * 7 + [(True, False)] * 2 + [(False, True)] * 2 + [(False, False)] * 9)
+    combined = hasRS or hasWS
     prefix = rng.choice(['', 'pid_', 'x'])
-    hasR = [m for m in members if rng.random() < 0.7]
-    hasW = [m for m in members if rng.random() < 0.7]
+    # programmer-written member methods: the rule in the per-member layout, the exception in the combined one
+    pm = 0.7 if not combined else rng.choice([0, 0, 0.3])
+    hasR = [m for m in members if rng.random() < pm]
+    hasW = [m for m in members if rng.random() < pm]
 
     def val():
         return rng.choice([0, 1, 2, 3, 5, 7, -1, -4, 9, 100])
@@ -349,7 +366,7 @@ def gen_struct(rng, big):
             ops.append(['readMember', rng.choice(members), rdict(), rval(), via])
         elif r < 0.68:
             m, v = rng.choice(members), val()
-            ops.append(['writeMember', m, v, wdict(full()), rdict(), wval(v), via])
+            ops.append(['writeMember', m, v, wdict(full()), rdict(), wval(v), rval(), via])
         elif r < 0.84:
             v = full()
             if rng.random() < 0.08 and len(members) > 1:
@@ -357,8 +374,8 @@ def gen_struct(rng, big):
             ops.append(['assignStruct', v, 'drv'])
         else:
             ops.append(['assignMember', rng.choice(members), val(), 'drv'])
-    return {'kind': 'struct', 'members': members, 'prefix': prefix, 'combined': combined,
-            'hasR': [] if combined else hasR, 'hasW': [] if combined else hasW, 'ops': ops}
+    return {'kind': 'struct', 'members': members, 'prefix': prefix, 'combined': combined, 'hasRS': hasRS, 'hasWS': hasWS,
+            'hasR': hasR, 'hasW': hasW, 'ops': ops}
 
 
 def sig_struct(case, bad):
@@ -1251,7 +1268,11 @@ def _run_chunk(ctx, res, cases, offset, ncorpus, shrunk):
         for op in case['ops']:
             res.count(f'{kind}.via-{op[-1]}')
         if kind == 'struct':
-            res.count('struct.layout-combined' if case['combined'] else 'struct.layout-permember')
+            sc_ = struct_case(case)
+            res.count('struct.layout-' + {(True, True): 'combined', (True, False): 'only-read-struct', (False, True): 'only-write-struct',
+                                          (False, False): 'permember'}[(sc_['hasRS'], sc_['hasWS'])])
+            if sc_['combined'] and (sc_['hasR'] or sc_['hasW']):
+                res.count('struct.combined-with-own-member-methods')
         if kind == 'floatenum':
             res.count('floatenum.labels-si-scaled' if case.get('scaled') else 'floatenum.labels-catalogue')
         if kind == 'limits':
